@@ -445,6 +445,8 @@ func init() {
 			c.ruleReplayPartition()
 			c.ruleSoftResetEntry()
 			c.ruleAdjCloneKeepsRejection()
+			c.ruleSoftResetInCoversAll("E6.softreset-in-covers-all")
+			c.ruleWithdrawalsFirst("E6.withdrawals-first")
 			c.ruleRequires("E1.requires", requiresFor(lkRR), 1)
 			c.ruleBookkeepingLocks("E1b.bookkeeping")
 			c.rulePairing("E6.send-recorded")
